@@ -54,7 +54,7 @@ structure CsiIndex where
 deriving DecidableEq, Repr
 
 /-- `Bin::metadata_id(depth) = bin_limit(depth) + 1`, `bin_limit(depth) = (1 << 3(depth+1)) / 7`
-(an `i32`: the Rust expression overflows for `depth ≥ 10`, see `CsiIndex.WF`) -/
+(computed in a `u64`; `depth ≤ 10` is asserted) -/
 def metaIdCsi (depth : Nat) : Nat := 8^(depth+1) / 7 + 1
 
 def csiMagic : Bytes := [67, 83, 73, 1]   -- "CSI\x01"
@@ -128,6 +128,11 @@ def encCsi (ix : CsiIndex) : Bytes :=
   csiMagic ++ (le 4 ix.minShift ++ (le 4 ix.depth ++ (encAux ix.header ++
     (le 4 ix.refs.length ++ ((ix.refs.map (encRefCsi ix.depth)).flatten ++ encUnplaced ix.unplaced)))))
 
+/-- `io/reader/index.rs::validate_geometry`: `min_shift > 0`, `min_shift + 3·depth < usize::BITS`
+(the largest position `2^(min_shift + 3·depth) - 1` is computed in a `usize`) and
+`depth ≤ Bin::MAX_DEPTH = 10` (`bin_limit` asserts it) -/
+def validGeometry (ms d : Nat) : Bool := decide (0 < ms) && decide (ms + 3 * d < 64) && decide (d ≤ 10)
+
 def decCsi : Dec CsiIndex := fun r =>
   match decMagic csiMagic r with
   | .error e => .error e
@@ -138,6 +143,7 @@ def decCsi : Dec CsiIndex := fun r =>
       match decU8 r1 with
       | .error e => .error e
       | .ok (d, r2) =>
+        if ¬ validGeometry ms d then .error .invalid else
         match decAux r2 with
         | .error e => .error e
         | .ok (h, r3) =>
@@ -168,10 +174,10 @@ def RefCsi.WF (depth : Nat) (r : RefCsi) : Prop :=
 def RefCsi.Aligned (r : RefCsi) : Prop :=
   (r.index.map (·.1)).Nodup ∧ ∀ id, id ∈ r.index.map (·.1) ↔ id ∈ r.bins.map (·.1)
 
-/-- `depth ≤ 9`: for `depth = 10` the `i32` expression `1 << ((depth + 1) * 3)` in `bin_limit`
-overflows although its `assert!(depth <= 10)` lets it through; deeper is rejected by that assert -/
+/-- the geometry the reader accepts (`validGeometry`): `0 < min_shift`, `min_shift + 3·depth < 64`,
+`depth ≤ 10` -/
 def CsiIndex.WF (ix : CsiIndex) : Prop :=
-  ix.minShift < 256 ∧ ix.depth ≤ 9 ∧
+  validGeometry ix.minShift ix.depth = true ∧
   (∀ h, ix.header = some h → h.WF ∧ (encHeader h).length < 2^31) ∧
   ix.refs.length < 2^31 ∧ (∀ r ∈ ix.refs, r.WF ix.depth) ∧ unplacedWF ix.unplaced
 
